@@ -4,7 +4,7 @@
    is elaborated once): optional splice (pos, del, ins), optional cut (prefix length);
    then the observables recorded from the Go implementation:
      obs  (54 numbers)  the fast paths, see [model_vec]
-     ref  (35 numbers)  real object.Unmarshal located through the harness scanner + the
+     ref  (36 numbers)  real object.Unmarshal located through the harness scanner + the
                         direct implementation-vs-Unmarshal equality flags computed in Go
      bad                nested values the real nested decoders reject: (num, code, vfrom, vto),
                         code 1 = proto.Unmarshal fails, 2 = FromProtoMessage fails
@@ -154,9 +154,13 @@ Definition ref_ok (x : bytes) (c : case) : bool :=
       | None => false
       | Some v =>
         (* the located fields are those of the Coq reference; the Go-side equality flags
-           (computed by re-marshalling) are due only for canonical inputs *)
-        leqb (skipn 8 rest) (ref_vec v)
-        && (if canonical_object x then leqb (firstn 8 rest) (repeat 1 8) else true)
+           (computed by re-marshalling) are due only when the real encoder reproduces the input
+           from the decoded object (last number of ref); such an input must also be canonical
+           for the Coq encoder model *)
+        leqb (firstn 26 (skipn 8 rest)) (ref_vec v)
+        && (if nth 34 rest 0 =? 1
+            then canonical_object x && leqb (firstn 8 rest) (repeat 1 8)
+            else true)
       end
   | [] => false
   end.
@@ -170,7 +174,7 @@ Definition fs_vec (x : bytes) (c : case) : list (option N) :=
   let '(_, _, _, rf, bad, _) := c in
   let initial := firstn head_buf_len x in
   let unm := match rf with st :: _ => st | [] => 9 end in
-  let good := wf_object x && canonical_object x && match bad with [] => true | _ => false end in
+  let good := wf_object x && (nth 35 rf 0 =? 1) && match bad with [] => true | _ => false end in
   let head_st :=
       if (length initial <? head_buf_len)%nat then unm
       else match extract_header_and_payload (pvalid_of x bad) (svalid_of x bad) initial with
